@@ -42,7 +42,8 @@ def extra_run(man, tier, seed):
             elif t in ('nat', 'int'):
                 doms.append([0, 1, 2, 7, 300])
             else:
-                doms.append([[], [0.0], [0.0, 0.0], [0.5, 0.5], [1.0, float('nan')], [-1.0, 2.0], [float('inf'), 1.0], [1.0, 2.0, 3.0], [0.0, 1.0]])
+                doms.append([[], [0.0], [0.0, 0.0], [0.5, 0.5], [1.0, float('nan')], [-1.0, 2.0], [float('inf'), 1.0], [1.0, 2.0, 3.0], [0.0, 1.0],
+                             [-0.0, 1.0, 3.0], [1.0, -0.0], [5e-324, 1.0], [1e300, 1e300]])
         total = 1
         for dd in doms:
             total *= len(dd)
